@@ -1,3 +1,4 @@
+import Desert.Lemmas.RoundTripFull
 import Desert.Lemmas.EnumLemmas
 /-!
 # C13 — enum constructors keep their identity; unknown ones are errors
@@ -108,8 +109,8 @@ theorem enum_transient_write (env : Env) (id n : String) (srt : Bool) (cs : List
   simp [hfc, htr]
 
 /-- extension: if the extended definition has the same constructor at the same wire index,
-previously written data decodes to that constructor with the same fields (headerless variants) -/
-theorem enum_extension (env : Env) (henv : EnvV0 env) (id id' n n' : String) (srt srt' : Bool) (cs cs' : List Ctor)
+previously written data decodes to that constructor with the same fields (variants may carry evolution steps) -/
+theorem enum_extension (env : Env) (henv : EnvWF env) (id id' n n' : String) (srt srt' : Bool) (cs cs' : List Ctor)
     (hfind : env.find id = some (.enum n srt cs)) (hfind' : env.find id' = some (.enum n' srt' cs'))
     (idx idx' w : Nat) (c : Ctor)
     (hfc : findCtorWire (wireCtors srt cs) idx = some (w, c))
@@ -127,7 +128,7 @@ theorem enum_extension (env : Env) (henv : EnvV0 env) (id id' n n' : String) (sr
     split at he
     · simp at he
     · rename_i htr; simp only [htr]; exact he
-  have := ((rt_all env henv (.ctor idx' fields)).1 (.named id') [] b st' fuel he' (by simpa [Val.utf8OK] using hu)
+  have := ((rt_wf env henv (.ctor idx' fields)).1 (.named id') [] b st' fuel he' (by simpa [Val.utf8OK] using hu)
     (by simp [StOK]) (by simpa [Val.depth] using hd) (AbsSrc.new (b ++ t)) t (WF_new _) (view_new _) rfl).1
   refine ⟨(AbsSrc.new (b ++ t)).after b.length st', ?_, view_after_append (view_new (b ++ t)) st'⟩
   rw [this]
